@@ -265,7 +265,7 @@ def decode_error(data: bytes) -> typing.Tuple[typing.Optional[ErrorCode], str]:
         return (None, "")
     try:
         error_code = ErrorCode.from_bytes(data, offset=2)
-    except struct.error:
+    except (struct.error, ValueError):
         error_code = None
     data_parts = data[4:].split(b"\0")
     if data_parts:
